@@ -2,6 +2,7 @@
 from __future__ import annotations
 
 import itertools
+import re
 import warnings
 
 from .common import Check, kv
@@ -183,8 +184,11 @@ def stream_instances(ck: Check, ops, expect):
             ck.spec(back.n_items == inst.n_items and back.n_different_items == inst.n_different_items
                     and back.total_item_area == inst.total_item_area and back.lower_bound_bins == inst.lower_bound_bins,
                     "compact_derived", "derived attributes (n_items, n_different_items, area, lower bound) differ after round trip", ctx)
-            sp = InstanceSpace(inst) if (inst.n_different_items <= 100_000 and inst.n_items <= 10**9 and inst.bin_width <= 10**9
-                                         and inst.bin_height <= 10**9 and inst.total_item_area <= 10**9) else None
+            try:
+                sp = InstanceSpace(inst)
+            except ERRS:     # the instance-generation space has tighter limits than Instance (1e9, no rotated items)
+                sp = None
+                ck.count("inst_space_not_constructible")
             if sp is not None:
                 x2 = sp.from_str(sp.to_str([inst]))
                 ck.spec(len(x2) == 1 and x2[0].to_compact_str() == s and x2[0].tolist() == inst.tolist()
@@ -209,6 +213,18 @@ def stream_instances(ck: Check, ops, expect):
 
 # ------------------------------------------------------------------ game plans
 _TTP = {}
+_STRICT = re.compile(r"-?[0-9]+(;-?[0-9]+)*")
+
+
+def strict_first_line(t: str) -> bool:
+    """is the part of the text that goes to np.fromstring a ';'-list of plain decimal integers?  (numpy itself is more
+    lenient: '-' reads as 0, '1.5'/'1e1' as 1 when last, blanks/'+'/trailing ';' are tolerated — outside the model)"""
+    t = t.lstrip()
+    i = t.find("\n")
+    if i > 0:
+        t = t[:i]
+    return _STRICT.fullmatch(t.rstrip()) is not None
+
 
 
 def ttp_instance(n: int, rounds: int, odd_names: bool):
@@ -221,7 +237,7 @@ def ttp_instance(n: int, rounds: int, odd_names: bool):
             for j in range(i + 1, n):
                 m[i, j] = m[j, i] = 1 + ((i * 7 + j * 13) % 9)
         ll = rounds * n - 1
-        names = [(f"T {i};x" if i % 2 else f"@t{i}-") for i in range(n)] if odd_names else [f"t{i}" for i in range(n)]
+        names = [(f"T{i};x" if i % 2 else f"@t{i}-") for i in range(n)] if odd_names else [f"t{i}" for i in range(n)]
         _TTP[key] = Instance(f"v{n}x{rounds}", m, names, rounds, 1, min(3, ll), 1, min(3, ll), 0, ll)
     return _TTP[key]
 
@@ -325,6 +341,9 @@ def stream_plans(ck: Check, ops, expect):
                     except ERRS:
                         iout = "ERR"
                         ck.count("planparse_rejected")
+                if iout != "ERR" and not strict_first_line(t):
+                    ck.count("planparse_numpy_lenient_skipped")
+                    continue
                 ops.append(l2)
                 ck.case(l2, nontrivial=False)
                 expect.append(("planparse", "malformed", l2, iout, t))
@@ -406,6 +425,9 @@ def stream_orderings(ck: Check, ops, expect):
                     except ERRS:
                         iout = "ERR"
                         ck.count("ordparse_rejected")
+                if iout != "ERR" and not strict_first_line(t):
+                    ck.count("ordparse_numpy_lenient_skipped")
+                    continue
                 ops.append(l2)
                 ck.case(l2, nontrivial=False)
                 expect.append(("ordparse", "malformed", l2, iout, t))
